@@ -799,3 +799,15 @@ M c08_retain_before_last C08 'C08.5b' 'hunk filtered before last_apath is record
 '                        let mut hunk = hunk;
                         hunk.retain(|entry| self.subtree.is_prefix_of(&entry.apath));
                         if let Some(last_apath) = hunk.last().map(|entry| entry.apath.clone()) {'
+M c16_empty_ignores_dangling C16 'C16.2d' 'directory_is_empty skips entries that do not exist when followed' src/io.rs \
+'    Ok(std::fs::read_dir(path)?.next().is_none())' \
+'    for entry in std::fs::read_dir(path)? {
+        if entry?.path().exists() {
+            return Ok(false);
+        }
+    }
+    Ok(true)'
+M c14_heuristic_compares_mode C14 'C14.2e' 'unchanged test also compares the mode' src/backup.rs \
+'    basis_entry.kind() == new_entry.kind()' \
+'    basis_entry.unix_mode() == new_entry.unix_mode()
+        && basis_entry.kind() == new_entry.kind()'
